@@ -43,7 +43,8 @@ def run(tier, seed):
     for i in range(300 if tier == "quick" else 5000):
         steps = []
         for _ in range(rnd.randint(4, 40)):
-            steps.append({"ev": rnd.choice(["register", "ack", "ack"]), "op": rnd.choice([11, 12, 13]),
+            ev = rnd.choice(["register", "register", "ack", "ack", "ack", "ack", "leave"])
+            steps.append({"ev": ev, "op": 0 if ev == "leave" else rnd.choice([11, 12, 13]),
                           "node": rnd.choice(["n1", "n2", "n3", "stranger"])})
         cases.append({"id": "r%d" % i, "steps": steps})
     raws = common.run_cases_parallel("pending", cases, wd)
@@ -65,7 +66,7 @@ def run(tier, seed):
         "model_generated_cases": n_model, "random_cases": len(cases) - n_model,
         "samples": [cases[n_model // 2]["steps"], cases[-1]["steps"][:10]],
         "exhaustive": True,
-        "rule": "NunPending: every (reference state, counter state) x {register(op,node), ack(op,node)} for "
+        "rule": "NunPending: every (reference state, counter state) x {register(op,node), ack(op,node), leave(node)} for "
                 "2 operations x 3 nodes up to the history bound, incl. duplicates, acks before "
                 "registration and from nodes never targeted; random sequences with a foreign node; each "
                 "sequence is applied to the real register_pending_opp / acknowledge_pending_opp and the "
